@@ -7,6 +7,8 @@ import (
 	"syscall"
 	"time"
 
+	"simrt"
+
 	"github.com/jwhited/corebgp"
 )
 
@@ -156,6 +158,7 @@ type PeerH struct {
 	Speaker *Speaker
 	Added   bool
 	AddSeq  uint64
+	AddTask *simrt.Task // the task that called AddPeer, when it ran in its own task
 }
 
 type Env struct {
